@@ -22,7 +22,16 @@ JudgeApi(r) ==
      \o (IF ca # {} THEN LET p == CHOOSE p \in ca : TRUE IN <<"entry points disagree", Name(p[1]), Name(p[2])>> ELSE <<>>)
      \o (IF r.c15 /\ ia # {} THEN LET p == CHOOSE p \in ia : TRUE IN <<"incomplete mode differs from strict mode that accepts", Name(p[1]), Name(p[2])>> ELSE <<>>)
      \o (IF r.c15 /\ ip # {} THEN <<"incomplete mode reports Error::Parse", Name(CHOOSE i \in ip : TRUE)>> ELSE <<>>)
+\* ignore_include through every entry point (C10): no file is read, so no call can come back with an Include error,
+\* and all calls of one family agree (a missing file and an existing one make no difference)
+JudgeIgn(r) ==
+  LET inc == {i \in 1..Len(r.calls) : r.calls[i].res.outcome = "err" /\ r.calls[i].res.err[1] = "Include"}
+      dis == {i \in 2..Len(r.calls) : r.calls[i].fam = r.calls[1].fam /\ ~SameResult(r.calls[i].res, r.calls[1].res)}
+  IN (IF inc # {} THEN <<"ignore_include: an include was followed", r.calls[CHOOSE i \in inc : TRUE].fn>> ELSE <<>>)
+     \o (IF dis # {} THEN <<"ignore_include: result depends on the entry point or on whether the file exists", r.calls[CHOOSE i \in dis : TRUE].fn>> ELSE <<>>)
+
 Judge(r) == CASE r.kind = "c15" -> JudgeC15(r)
+              [] r.kind = "ign" -> JudgeIgn(r)
               [] r.kind = "badbyte" -> BadByteJudgement(r.file, r.off, r.res)
               [] r.kind = "delclose" -> DeletionJudgement(r.res)
               [] r.kind = "hist" -> HistoryJudgement(r.fresh, r.after)
